@@ -233,6 +233,7 @@ def layer_a_cells(tier):
 
 
 HAZARD = "hazard=f32-multicol-exhaust"
+HAZARD64 = "hazard=multicol-exhausted-column-zero-residual"
 
 
 def krylov_dim(fam, n):
@@ -471,13 +472,18 @@ def run_mixed(chk, seed, corr_lines):
                                 if max(e1, e2, e3, e4) > 1e-7:
                                     fails.append(f"column {c} ({tag}): QtQ-I={e1:.1e} QtAQ-T={e2:.1e} QTQt-A={e3:.1e} AQ-QT={e4:.1e}")
                             else:
-                                # the exhausted column: its first two vectors span the invariant subspace
+                                # the exhausted column: its first two vectors span the invariant subspace (always
+                                # demanded); that its later entries are finite is a separate cell (known hazard)
                                 Q2, T2 = Qc[..., :, :2], Tc[..., :2, :2]
                                 e1 = (Q2.mT @ Q2 - torch.eye(2, dtype=F64)).abs().max().item()
                                 e2 = (Q2.mT @ A @ Q2 - T2).abs().max().item()
                                 e3 = (A @ Q2 - Q2 @ T2).abs().max().item()
                                 if not (e1 < 1e-7 and e2 < 1e-7 and e3 < 1e-6):
                                     fails.append(f"column {c} ({tag}): leading 2 columns QtQ-I={e1:.1e} QtAQ-T={e2:.1e} AQ-QT={e3:.1e}")
+                                hcid = f"{cid}/exhausted-column/{HAZARD64}"
+                                chk.case(hcid)
+                                if not (torch.isfinite(Qc).all() and torch.isfinite(Tc).all()):
+                                    chk.violation(hcid, f"column {c}: non-finite entries after its Krylov space was exhausted (residual exactly 0 divided by its norm)", payload)
                             v0 = v[..., :, c] / v[..., :, c].norm(dim=-1, keepdim=True)
                             if (Qc[..., :, 0] - v0).abs().max().item() > 1e-9:
                                 fails.append(f"column {c}: q_0 is not v/|v|")
@@ -490,11 +496,27 @@ def run_mixed(chk, seed, corr_lines):
                     cid = f"C09/post/root_inv[mixedkrylov]/{base}"
                     chk.case(cid)
                     tv = torch.randn(*batch, n, 2, generator=g, dtype=F64)
-                    try:
-                        with settings.max_root_decomposition_size(n):
-                            R = DenseLinearOperator(A).root_inv_decomposition(initial_vectors=v, test_vectors=tv, method="lanczos").root.to_dense()
-                    except Exception as e:  # noqa: BLE001
-                        chk.violation(cid, f"raised {type(e).__name__}: {str(e)[:100]}", payload)
+                    err = None
+                    with Tap() as tap:
+                        try:
+                            with settings.max_root_decomposition_size(n):
+                                R = DenseLinearOperator(A).root_inv_decomposition(initial_vectors=v, test_vectors=tv, method="lanczos").root.to_dense()
+                        except Exception as e:  # noqa: BLE001
+                            err = e
+                    # precondition of this cell: the exhausted probe came out of lanczos_tridiag finite (separate, open cell)
+                    hcid = f"{cid}/exhausted-probe/{HAZARD64}"
+                    chk.case(hcid)
+                    if len(tap.calls) == 1:
+                        tq, tt, _ = tap.calls[0]
+                        gen_ok = all(bool(torch.isfinite(tq[c]).all() and torch.isfinite(tt[c]).all()) for c in range(p) if c != cdef)
+                        def_ok = bool(torch.isfinite(tq[cdef]).all() and torch.isfinite(tt[cdef]).all())
+                        if gen_ok and not def_ok:
+                            chk.violation(hcid, f"probe {cdef}: non-finite Q/T after its Krylov space was exhausted"
+                                          + (f"; downstream {type(err).__name__}" if err is not None else ""), payload)
+                            chk.count("mixed_discard=exhausted-probe-nan")
+                            continue
+                    if err is not None:
+                        chk.violation(cid, f"raised {type(err).__name__}: {str(err)[:100]}", payload)
                         continue
                     e = (R @ R.mT @ A - torch.eye(n, dtype=F64)).abs().max().item()
                     if not e < 1e-4:
